@@ -9,7 +9,9 @@ import (
 	"go/token"
 	"go/types"
 	"os"
+	"path/filepath"
 	"strings"
+	"sync/atomic"
 
 	"golang.org/x/tools/go/ssa"
 )
@@ -188,6 +190,8 @@ type Exec struct {
 	curArgs            [][]Value
 	curEntry           []Heap
 	iters              []*IterV
+	opaqueNil          map[*OpaqueV]*Term
+	bounded            []string // loops cut at a fixed depth: the obligations of this run can refute, not prove
 	curFacts           map[*Term]*Term
 	seedFacts          map[*Term]*Term // facts implied by the hypotheses of the case (each is also an obligation of the split's own lemma)
 	notApplicable      []string
@@ -258,9 +262,18 @@ func pkgKey(name, path string) string {
 	return name
 }
 
+// needUnwind is raised by the exact unrolling when a test does not fold.
+type needUnwind struct{}
+
+const (
+	unwindProofLimit  = 66 // symbolic rounds tried before a loop is declared not provably bounded
+	unwindRefuteLimit = 4  // depth of the bounded (refutation-only) unrolling
+)
+
 type edge struct {
 	cond *Term
 	st   *State
+	vals map[ssa.Value]Value // unwinding mode: the SSA values of the path that created the edge
 }
 
 type fnInfo struct {
@@ -364,6 +377,120 @@ func (x *Exec) mergeStates(edges []edge) (*Term, *State) {
 		pc = b.Or(pc, e.cond)
 	}
 	return pc, st
+}
+
+// mergeEdgesVals is mergeStates for the unwinding mode: the SSA values of the
+// joined paths are merged like the heap cells.  A value that cannot be merged
+// (different closures, pointers to different objects ...) becomes undefined;
+// that only matters if the code after the join uses it.
+func (x *Exec) mergeEdgesVals(edges []edge, cur map[ssa.Value]Value) (*Term, *State, map[ssa.Value]Value) {
+	b := x.b
+	var pc *Term
+	var st *State
+	var vals map[ssa.Value]Value
+	for _, e := range edges {
+		if e.cond == nil || e.cond.Op == "false" {
+			continue
+		}
+		ev := e.vals
+		if ev == nil {
+			ev = cur
+		}
+		if st == nil {
+			st, pc = e.st, e.cond
+			vals = make(map[ssa.Value]Value, len(ev))
+			for k, v := range ev {
+				vals[k] = v
+			}
+			continue
+		}
+		nh := make(Heap, len(st.h))
+		x.curHeapForStr = st.h
+		x.curHeapA, x.curHeapB = e.st.h, st.h
+		for o, v := range e.st.h {
+			if ov, ok := st.h[o]; ok {
+				nh[o] = x.iteV(e.cond, v, ov)
+			} else {
+				nh[o] = v
+			}
+		}
+		for k, v := range ev {
+			ov, ok := vals[k]
+			if !ok {
+				vals[k] = v
+				continue
+			}
+			if ov == nil || v == nil || sameValue(ov, v) {
+				continue
+			}
+			func() {
+				defer func() {
+					if r := recover(); r != nil {
+						if _, is := r.(Unsupported); is {
+							delete(vals, k)
+							return
+						}
+						panic(r)
+					}
+				}()
+				vals[k] = x.iteV(e.cond, v, ov)
+			}()
+		}
+		for o, v := range x.pendingObjs {
+			nh[o] = v
+			delete(x.pendingObjs, o)
+		}
+		for o, v := range st.h {
+			if _, ok := nh[o]; !ok {
+				nh[o] = v
+			}
+		}
+		if len(e.st.defers) != len(st.defers) {
+			unsupported("join of paths with different deferred calls")
+		}
+		st = &State{h: nh, defers: st.defers, facts: meetFacts(st.facts, e.st.facts)}
+		pc = b.Or(pc, e.cond)
+	}
+	return pc, st, vals
+}
+
+// sameValue: identical values need no merge (terms are hash-consed).
+func sameValue(a, b Value) bool {
+	if a == b {
+		return true
+	}
+	switch u := a.(type) {
+	case *PtrV:
+		v, ok := b.(*PtrV)
+		if !ok || u.Obj != v.Obj || u.Nil != v.Nil || len(u.Path) != len(v.Path) {
+			return false
+		}
+		for i := range u.Path {
+			if u.Path[i] != v.Path[i] {
+				return false
+			}
+		}
+		return true
+	case *FuncV:
+		v, ok := b.(*FuncV)
+		return ok && u.Fn == v.Fn && len(u.Bindings) == 0 && len(v.Bindings) == 0
+	case *IterV:
+		return false
+	}
+	return false
+}
+
+var unwindSeq int64
+
+// infeasible asks the solver whether a path condition is unsatisfiable under
+// the current hypotheses (the unwinding assertion of a loop without invariant).
+func (x *Exec) infeasible(cond *Term) bool {
+	q := &Query{Hyps: x.hyps, Goals: []NamedTerm{{"path", cond}}}
+	n := atomic.AddInt64(&unwindSeq, 1)
+	file := filepath.Join(workRoot, fmt.Sprintf("unwind_%d_%d.smt2", os.Getpid(), n))
+	st := Cover(x.b, q, file, 10)
+	os.Remove(file)
+	return st == "unsat"
 }
 
 type frame struct {
@@ -517,16 +644,27 @@ func (x *Exec) run(fn *ssa.Function, args []Value, st *State, pcIn *Term) (Value
 	}()
 	b := x.b
 	fi := x.info(fn)
-	vals := map[ssa.Value]Value{}
-	for i, p := range fn.Params {
-		vals[p] = args[i]
+	initVals := func() map[ssa.Value]Value {
+		m := map[ssa.Value]Value{}
+		for i, p := range fn.Params {
+			m[p] = args[i]
+		}
+		return m
 	}
 	in := map[*ssa.BasicBlock][]edge{}
 	for _, blk := range fn.Blocks {
 		in[blk] = make([]edge, len(blk.Preds))
 	}
 	// duplicate predecessor handling: If with both successors equal
+	unwinding := false // a loop without invariant whose tests do not fold: unrolled symbolically (see unwind below)
+	var vals map[ssa.Value]Value
 	setEdge := func(from, to *ssa.BasicBlock, succIdx int, e edge) {
+		if unwinding && e.cond != nil && e.cond.Op != "false" {
+			e.vals = make(map[ssa.Value]Value, len(vals))
+			for k, v := range vals {
+				e.vals[k] = v
+			}
+		}
 		// find the matching pred slot: the n-th occurrence of `from` in to.Preds
 		// corresponds to the n-th occurrence of `to` in from.Succs
 		n := 0
@@ -546,12 +684,21 @@ func (x *Exec) run(fn *ssa.Function, args []Value, st *State, pcIn *Term) (Value
 		}
 		panic("pred slot")
 	}
+	vals = initVals()
 	var rets []edge
 	var retVals []Value
 	var loops *loopCtx
 	concrete := false // a loop without invariant: followed concretely (every branch condition must fold)
 	if len(fi.headers) > 0 {
-		if c := x.ld.contractFor(fn); c == nil || len(c.Loops) == 0 {
+		c := x.ld.contractFor(fn)
+		covered := c != nil && len(c.Loops) > 0
+		if covered {
+			for k := range fi.headers {
+				covered = covered && c.Loops[k] != nil
+			}
+		}
+		if !covered {
+			// no invariants (or not for every loop the function has now): unrolled
 			concrete = true
 		} else {
 			loops = x.newLoopCtx(fn, fi)
@@ -605,6 +752,8 @@ func (x *Exec) run(fn *ssa.Function, args []Value, st *State, pcIn *Term) (Value
 					}
 				}
 				pc, cur = x.mergeStates(fwd)
+			} else if unwinding {
+				pc, cur, vals = x.mergeEdgesVals(edges, vals)
 			} else {
 				pc, cur = x.mergeStates(edges)
 			}
@@ -632,11 +781,28 @@ func (x *Exec) run(fn *ssa.Function, args []Value, st *State, pcIn *Term) (Value
 					if e.cond == nil || e.cond.Op == "false" {
 						continue
 					}
-					v := get(i.Edges[k])
+					var v Value
+					if unwinding && e.vals != nil {
+						// the value as it was on the path that took this edge
+						saved := vals
+						vals = e.vals
+						v = get(i.Edges[k])
+						vals = saved
+						x.curHeapForStr = cur.h
+						x.curHeapA, x.curHeapB = e.st.h, cur.h
+					} else {
+						v = get(i.Edges[k])
+					}
 					if r == nil {
 						r = v
 					} else {
 						r = x.iteV(e.cond, v, r)
+					}
+				}
+				if unwinding {
+					for o, v := range x.pendingObjs {
+						cur.h[o] = v
+						delete(x.pendingObjs, o)
 					}
 				}
 				vals[i] = r
@@ -790,27 +956,27 @@ func (x *Exec) run(fn *ssa.Function, args []Value, st *State, pcIn *Term) (Value
 				}
 				if loops != nil {
 					if loops.edge(blk, 0, b.And(pc, c), cur) {
-						setEdge(blk, blk.Succs[0], 0, edge{b.False(), cur})
+						setEdge(blk, blk.Succs[0], 0, edge{cond: b.False(), st: cur})
 					} else {
-						setEdge(blk, blk.Succs[0], 0, edge{b.And(pc, c), cur})
+						setEdge(blk, blk.Succs[0], 0, edge{cond: b.And(pc, c), st: cur})
 					}
 					if loops.edge(blk, 1, b.And(pc, b.Not(c)), cur) {
-						setEdge(blk, blk.Succs[1], 1, edge{b.False(), cur})
+						setEdge(blk, blk.Succs[1], 1, edge{cond: b.False(), st: cur})
 					} else {
-						setEdge(blk, blk.Succs[1], 1, edge{b.And(pc, b.Not(c)), cur})
+						setEdge(blk, blk.Succs[1], 1, edge{cond: b.And(pc, b.Not(c)), st: cur})
 					}
 					break
 				}
 				curT := &State{h: cur.h, defers: cur.defers, facts: extendFacts(cur.facts, b, c, true)}
 				curF := &State{h: cur.h, defers: cur.defers, facts: extendFacts(cur.facts, b, c, false)}
-				setEdge(blk, blk.Succs[0], 0, edge{b.And(pc, c), curT})
-				setEdge(blk, blk.Succs[1], 1, edge{b.And(pc, b.Not(c)), curF})
+				setEdge(blk, blk.Succs[0], 0, edge{cond: b.And(pc, c), st: curT})
+				setEdge(blk, blk.Succs[1], 1, edge{cond: b.And(pc, b.Not(c)), st: curF})
 			case *ssa.Jump:
 				if loops != nil && loops.edge(blk, 0, pc, cur) {
-					setEdge(blk, blk.Succs[0], 0, edge{b.False(), cur})
+					setEdge(blk, blk.Succs[0], 0, edge{cond: b.False(), st: cur})
 					break
 				}
-				setEdge(blk, blk.Succs[0], 0, edge{pc, cur})
+				setEdge(blk, blk.Succs[0], 0, edge{cond: pc, st: cur})
 			case *ssa.Return:
 				var rv Value
 				switch len(i.Results) {
@@ -824,15 +990,15 @@ func (x *Exec) run(fn *ssa.Function, args []Value, st *State, pcIn *Term) (Value
 					}
 					rv = t
 				}
-				rets = append(rets, edge{pc, cur})
+				rets = append(rets, edge{cond: pc, st: cur})
 				retVals = append(retVals, rv)
 			case *ssa.Range:
 				vals[i] = x.rangeStart(i, get(i.X))
 			case *ssa.Next:
-				if loops == nil {
-					unsupported("range iteration outside a loop")
+				if loops == nil && !unwinding {
+					panic(needUnwind{})
 				}
-				vals[i] = loops.next(i, get(i.Iter), cur, pc)
+				vals[i] = x.rangeNext(get(i.Iter), cur, pc)
 			default:
 				unsupported("instruction %T (%s) in %s", ins, ins.String(), fn.Name())
 			}
@@ -844,42 +1010,147 @@ func (x *Exec) run(fn *ssa.Function, args []Value, st *State, pcIn *Term) (Value
 		}
 	} else {
 		// Exact unrolling: follow the one successor whose edge condition folded
-		// to true.  A loop whose exit test does not fold at some iteration is
-		// outside the subset (it needs an invariant).
-		blk := fn.Blocks[0]
-		for steps := 0; blk != nil; steps++ {
-			if steps > 200000 {
-				unsupported("loop in %s does not terminate within the unrolling limit", fnKey(fn))
+		// to true.  When a test does not fold, the attempt is abandoned and the
+		// function is unrolled symbolically instead (unwind).
+		nh, no, ni := len(x.hyps), len(x.obligs), len(x.iters)
+		st0 := st // (processBlock moves st along)
+		exact := func() (ok bool) {
+			defer func() {
+				if r := recover(); r != nil {
+					if _, is := r.(needUnwind); is {
+						ok = false
+						return
+					}
+					panic(r)
+				}
+			}()
+			blk := fn.Blocks[0]
+			for steps := 0; blk != nil; steps++ {
+				if steps > 200000 {
+					unsupported("loop in %s does not terminate within the unrolling limit", fnKey(fn))
+				}
+				nret := len(rets)
+				processBlock(blk)
+				for k := range in[blk] {
+					in[blk][k] = edge{} // consumed
+				}
+				if len(rets) > nret {
+					break
+				}
+				var next *ssa.BasicBlock
+				for _, s := range blk.Succs {
+					for k, p := range s.Preds {
+						if p != blk {
+							continue
+						}
+						e := in[s][k]
+						if e.cond == nil {
+							continue
+						}
+						switch {
+						case e.cond == pcIn || e.cond.Op == "true":
+							next = s
+						case e.cond.Op == "false":
+							in[s][k] = edge{}
+						default:
+							panic(needUnwind{})
+						}
+					}
+				}
+				blk = next
 			}
-			nret := len(rets)
-			processBlock(blk)
-			for k := range in[blk] {
-				in[blk][k] = edge{} // consumed
+			return true
+		}
+		if !exact() {
+			reset := func() {
+				x.hyps, x.obligs, x.iters = x.hyps[:nh], x.obligs[:no], x.iters[:ni]
+				for _, blk := range fn.Blocks {
+					in[blk] = make([]edge, len(blk.Preds))
+				}
+				rets, retVals, entered = nil, nil, false
+				vals = initVals()
+				st = st0
 			}
-			if len(rets) > nret {
-				break
-			}
-			var next *ssa.BasicBlock
-			for _, s := range blk.Succs {
-				for k, p := range s.Preds {
-					if p != blk {
+			// Symbolic unrolling ("unwinding"): every round executes each block
+			// at most once in topological order, merging paths; a back edge
+			// feeds the header of the next round.  Each edge carries the SSA
+			// values of its path.  The unrolling is complete - and the result
+			// as good as any other verification condition - when the solver
+			// shows that no back edge can be taken any more (unwinding
+			// assertion).  Otherwise the function is cut at a small depth and
+			// the run is marked bounded: only refutations that replay on the
+			// real code are believed.
+			unwinding = true
+			unwind := func(limit int, checkAt map[int]bool, bounded bool) bool {
+				symRounds := 0
+				for round := 0; ; round++ {
+					if round > 100000 {
+						unsupported("loop in %s does not terminate within the unrolling limit", fnKey(fn))
+					}
+					for _, blk := range fi.order {
+						processBlock(blk)
+						for k := range in[blk] {
+							in[blk][k] = edge{}
+						}
+					}
+					// what is left are the back edges taken in this round
+					live, symbolic := false, false
+					for _, h := range fi.headers {
+						for k, e := range in[h] {
+							if e.cond == nil || e.cond.Op == "false" {
+								in[h][k] = edge{}
+								continue
+							}
+							live = true
+							if e.cond != pcIn && e.cond.Op != "true" {
+								symbolic = true
+							}
+						}
+					}
+					if !live {
+						return true
+					}
+					if !symbolic {
 						continue
 					}
-					e := in[s][k]
-					if e.cond == nil {
-						continue
+					symRounds++
+					if checkAt[symRounds] || symRounds >= limit {
+						still := false
+						for _, h := range fi.headers {
+							for k, e := range in[h] {
+								if e.cond == nil {
+									continue
+								}
+								if x.infeasible(e.cond) {
+									in[h][k] = edge{}
+								} else {
+									still = true
+								}
+							}
+						}
+						if !still {
+							return true
+						}
 					}
-					switch {
-					case e.cond == pcIn || e.cond.Op == "true":
-						next = s
-					case e.cond.Op == "false":
-						in[s][k] = edge{}
-					default:
-						unsupported("loop in %s without a loop contract: a branch condition does not fold to a constant (an invariant is needed)", fnKey(fn))
+					if symRounds >= limit {
+						if !bounded {
+							return false
+						}
+						for _, h := range fi.headers {
+							for k := range in[h] {
+								in[h][k] = edge{}
+							}
+						}
+						x.bounded = append(x.bounded, fmt.Sprintf("loop in %s without an invariant: unrolled %d times, deeper iterations not explored", fnKey(fn), limit))
+						return true
 					}
 				}
 			}
-			blk = next
+			reset()
+			if !unwind(unwindProofLimit, map[int]bool{2: true, 4: true, 9: true, 17: true, 33: true}, false) {
+				reset()
+				unwind(unwindRefuteLimit, nil, true)
+			}
 		}
 	}
 	if len(rets) == 0 {
@@ -1001,6 +1272,19 @@ func (x *Exec) binop(i *ssa.BinOp, xv, yv Value, st *State) Value {
 	ya, yok := yv.(*Term)
 	if !xok || !yok {
 		var eq *Term
+		if isFuncKind(xv) && isFuncKind(yv) && (i.Op == token.EQL || i.Op == token.NEQ) {
+			// Go compares function values with nil only
+			var t *Term
+			if f, ok := xv.(*FuncV); ok && f.Fn == nil {
+				t = x.funcNil(yv)
+			} else {
+				t = x.funcNil(xv)
+			}
+			if i.Op == token.NEQ {
+				t = b.Not(t)
+			}
+			return t
+		}
 		switch p := xv.(type) {
 		case *IfaceV:
 			q := yv.(*IfaceV)
@@ -1228,6 +1512,12 @@ func (x *Exec) valEq(a, c Value) *Term {
 
 func (x *Exec) ifaceEq(p, q *IfaceV) *Term {
 	b := x.b
+	if p.AltC != nil {
+		return b.Ite(p.AltC, x.ifaceEq(p.AltA, q), x.ifaceEq(p.AltB, q))
+	}
+	if q.AltC != nil {
+		return b.Ite(q.AltC, x.ifaceEq(p, q.AltA), x.ifaceEq(p, q.AltB))
+	}
 	pn, qn := x.ifaceNil(p), x.ifaceNil(q)
 	if pn.Op == "true" {
 		return qn
@@ -1394,6 +1684,18 @@ func (x *Exec) sliceOp(i *ssa.Slice, get func(ssa.Value) Value, st *State, pc *T
 
 func (x *Exec) typeAssert(i *ssa.TypeAssert, v *IfaceV, st *State, pc *Term) Value {
 	b := x.b
+	if v.AltC != nil {
+		ra := x.typeAssert(i, v.AltA, st, b.And(pc, v.AltC))
+		rb := x.typeAssert(i, v.AltB, st, b.And(pc, b.Not(v.AltC)))
+		x.curHeapForStr = st.h
+		x.curHeapA, x.curHeapB = st.h, st.h
+		r := x.iteV(v.AltC, ra, rb)
+		for o, ov := range x.pendingObjs {
+			st.h[o] = ov
+			delete(x.pendingObjs, o)
+		}
+		return r
+	}
 	var ok *Term
 	var val Value
 	if v.Dyn != nil {
